@@ -773,6 +773,18 @@ impl Board {
         self.position_history.contains(&position)
     }
 
+    /// Verification accessor: the en-passant file (no public getter exists).
+    #[cfg(rce_verif)]
+    pub const fn verif_en_passant_file(&self) -> Option<u8> {
+        self.en_passant_file
+    }
+
+    /// Verification accessor: number of undo records on the stack.
+    #[cfg(rce_verif)]
+    pub fn verif_history_len(&self) -> usize {
+        self.history.len()
+    }
+
     /// Finds the move in the list of all legal moves that corresponds to the given notation
     pub fn find_move(&mut self, notation: &str) -> Result<Ply, &'static str> {
         self.get_legal_moves()
